@@ -516,7 +516,10 @@ Definition ev_couts (s : cstate) (e : cev) : list cobs :=
       if negb (saw_commit s) && negb (first_iter s) then [] else [COut "BEGIN" t (key_of t (begins s)) w]
   | EXLog w (XCommit _) => [COut "COMMIT" (ctxn s) (ckey s) w]
   | EXLog w (XChange op) => [COut op (ctxn s) (ckey s) w]
-  | EErrorResponse _ => [COut "COMMIT" (ctxn s) (ckey s) (highest s)]
+  | EErrorResponse _ =>
+      if negb (first_iter s) && negb (saw_commit s)
+      then [COut "COMMIT" (ctxn s) (ckey s) (if (highest s =? 0)%N then overall s else highest s)]
+      else []
   | _ => []
   end.
 
@@ -530,10 +533,16 @@ Lemma head_out_couts s it : couts (head_out s it) = [].
 Proof. unfold head_out. destruct (head_sends s it); reflexivity. Qed.
 
 Lemma ev_step_couts s2 it : couts (snd (ev_step s2 it)) = ev_couts s2 (i_ev it).
-Proof. unfold ev_couts. ev_an; reflexivity. Qed.
+Proof.
+  unfold ev_couts, ev_step, prog2, fatal, recover, heartbeat, handle_xlog.
+  destruct (i_ev it) as [w [t|t|op| |]| w [|] sl | | | | | | x | | |];
+  repeat match goal with |- context [if ?c then _ else _] => destruct c eqn:? end; reflexivity.
+Qed.
 
+(* (the state handed to the handlers is the one after the loop-head handleProgress: same as [s]
+   except that [overall] has absorbed the values waiting on the progress channel) *)
 Lemma cstep_couts s it :
-  couts (snd (cstep s it)) = if stopped s || i_pclosed it then [] else ev_couts s (i_ev it).
+  couts (snd (cstep s it)) = if stopped s || i_pclosed it then [] else ev_couts (head_state s it) (i_ev it).
 Proof.
   destruct (stopped s) eqn:R; [rewrite cstep_stopped by assumption; reflexivity|].
   destruct (i_pclosed it) eqn:Pc; [rewrite cstep_pclosed by assumption; reflexivity|].
@@ -583,11 +592,12 @@ Proof.
   destruct (stopped s || i_pclosed it); [contradiction|].
   unfold ev_couts in I2.
   destruct (i_ev it) as [w' [t'|t'|op'| |]| w' [|] sl | | | | | | x | | |]; try contradiction.
-  - destruct (negb (saw_commit s) && negb (first_iter s)); [contradiction|].
+  - match type of I2 with context [if ?c then _ else _] => destruct c end; [contradiction|].
     destruct I2 as [I2|[]]. inversion I2; subst. left. eauto.
   - destruct I2 as [I2|[]]. inversion I2; subst. auto.
   - destruct I2 as [I2|[]]. inversion I2; subst. auto.
-  - destruct I2 as [I2|[]]. inversion I2; subst. auto.
+  - match type of I2 with context [if ?c then _ else _] => destruct c end; [|contradiction].
+    destruct I2 as [I2|[]]. inversion I2; subst. auto.
 Qed.
 
 Lemma cstep_stamp_frame s it s' o :
@@ -644,7 +654,8 @@ Definition ev_begin_keys (s : cstate) (e : cev) : list string :=
   end.
 Definition ev_commit_keys (s : cstate) (e : cev) : list string :=
   match e with
-  | EXLog _ (XCommit _) | EErrorResponse _ => [ckey s]
+  | EXLog _ (XCommit _) => [ckey s]
+  | EErrorResponse _ => if negb (first_iter s) && negb (saw_commit s) then [ckey s] else []
   | _ => []
   end.
 
@@ -654,11 +665,14 @@ Proof.
   intros Ok. unfold begin_keys. rewrite out_keys_couts, cstep_couts.
   destruct (stopped s || i_pclosed it); [reflexivity|].
   unfold ev_couts, ev_begin_keys.
+  cbn [head_state set_conn set_overall saw_commit first_iter ctxn ckey begins highest].
   destruct (i_ev it) as [w' [t'|t'|op'| |]| w' [|] sl | | | | | | x | | |]; try reflexivity.
   - destruct (negb (saw_commit s) && negb (first_iter s)); reflexivity.
   - simpl in Ok. apply andb_prop in Ok. destruct Ok as [Ok _]. apply negb_true_iff in Ok.
     simpl. rewrite Ok. reflexivity.
+  - destruct (negb (first_iter s) && negb (saw_commit s)); reflexivity.
 Qed.
+
 
 Lemma cstep_commit_keys s it : ev_ok (i_ev it) = true ->
   commit_keys (snd (cstep s it)) = if stopped s || i_pclosed it then [] else ev_commit_keys s (i_ev it).
@@ -666,11 +680,14 @@ Proof.
   intros Ok. unfold commit_keys. rewrite out_keys_couts, cstep_couts.
   destruct (stopped s || i_pclosed it); [reflexivity|].
   unfold ev_couts, ev_commit_keys.
+  cbn [head_state set_conn set_overall saw_commit first_iter ctxn ckey begins highest].
   destruct (i_ev it) as [w' [t'|t'|op'| |]| w' [|] sl | | | | | | x | | |]; try reflexivity.
   - destruct (negb (saw_commit s) && negb (first_iter s)); reflexivity.
   - simpl in Ok. apply andb_prop in Ok. destruct Ok as [_ Ok]. apply negb_true_iff in Ok.
     simpl. rewrite Ok. reflexivity.
+  - destruct (negb (first_iter s) && negb (saw_commit s)); reflexivity.
 Qed.
+
 
 Lemma cstart_couts first : couts (snd (cstart first)) = [].
 Proof. unfold cstart, get_start, fatal. destruct first; reflexivity. Qed.
@@ -784,25 +801,70 @@ Proof.
   rewrite <- E in E1, E2. simpl in E1, E2. split; [exact E1|]. rewrite E2. lia.
 Qed.
 
+(* ---- is a transaction open on the client's side? ---- *)
+(* firstIteration / sawCommit as a function of the received events *)
+Definition flags_of (s : cstate) : bool * bool := (first_iter s, saw_commit s).
+Definition flags_ev (fl : bool * bool) (e : cev) : bool * bool :=
+  match e with
+  | EXLog _ (XBegin _) => if negb (snd fl) && negb (fst fl) then (true, false) else (false, false)
+  | EXLog _ (XCommit _) => (fst fl, true)
+  | EErrorResponse _ => (true, false)
+  | _ => fl
+  end.
+(* a BEGIN was forwarded and neither a COMMIT, nor a dropped BEGIN, nor a recovery followed *)
+Definition open_txn (s : cstate) : bool := negb (first_iter s) && negb (saw_commit s).
+
+Lemma ev_step_flags s2 it : flags_of (fst (ev_step s2 it)) = flags_ev (flags_of s2) (i_ev it).
+Proof.
+  unfold flags_of, ev_step, prog2, fatal, recover, heartbeat, handle_xlog.
+  destruct (i_ev it) as [w [t|t|op| |]| w [|] sl | | | | | | x | | |]; cbn [flags_ev fst snd];
+  repeat match goal with |- context [if ?c then _ else _] => destruct c eqn:? end; reflexivity.
+Qed.
+
+Lemma cstep_flags s it :
+  flags_of (fst (cstep s it)) = if stopped s || i_pclosed it then flags_of s else flags_ev (flags_of s) (i_ev it).
+Proof.
+  destruct (stopped s) eqn:R; [rewrite cstep_stopped by assumption; reflexivity|].
+  destruct (i_pclosed it) eqn:Pc; [rewrite cstep_pclosed by assumption; reflexivity|].
+  rewrite cstep_consumed by assumption. simpl. rewrite ev_step_flags. reflexivity.
+Qed.
+
+Lemma cstart_flags first : flags_of (fst (cstart first)) = (true, false).
+Proof. unfold cstart, get_start, fatal. destruct first; reflexivity. Qed.
+
+Definition flags_spec (evs : list cev) : bool * bool := fold_left flags_ev evs (true, false).
+
+Lemma crun_flags first its : stopped (fst (crun first its)) = false ->
+  flags_of (fst (crun first its)) = flags_spec (map i_ev its).
+Proof.
+  intros R. rewrite (crun_fold flags_of flags_ev); [rewrite cstart_flags; reflexivity| |exact R].
+  intros s it R0 Pc. rewrite cstep_flags, R0, Pc. reflexivity.
+Qed.
+
 (* ---- at most one COMMIT per delivery key ---- *)
+(* [b] = the current stamp already has its COMMIT (or there is no stamp yet).  A BEGIN event makes
+   a new stamp; a COMMIT is allowed only if the stamp has none yet; an ErrorResponse gives the
+   open transaction, if any, its one (synthetic) COMMIT now: no further COMMIT may come before
+   the next BEGIN *)
 Fixpoint commits_ok (b : bool) (evs : list cev) : bool :=
   match evs with
   | [] => true
   | EXLog _ (XBegin _) :: r => commits_ok false r
   | EXLog _ (XCommit _) :: r => negb b && commits_ok true r
-  | EErrorResponse _ :: r => false
+  | EErrorResponse _ :: r => commits_ok true r
   | _ :: r => commits_ok b r
   end.
 
 Definition commit_inv (s : cstate) (K : list string) (b : bool) : Prop :=
   bounded (begins s) K /\
-  (b = false -> ~ In (ckey s) K /\ exists t n, ckey s = key_of t n /\ (n < begins s)%N).
+  (b = false -> ~ In (ckey s) K /\ exists t n, ckey s = key_of t n /\ (n < begins s)%N) /\
+  (b = true -> open_txn s = false).
 
 Lemma citers_commit_keys its : forall s K b,
   script_ok its = true -> commits_ok b (map i_ev its) = true -> commit_inv s K b -> NoDup K ->
   NoDup (K ++ commit_keys (snd (citers s its))).
 Proof.
-  induction its as [|it its IH]; intros s K b Ok Co [B J] N.
+  induction its as [|it its IH]; intros s K b Ok Co (B & J & Op) N.
   - simpl. rewrite app_nil_r. exact N.
   - simpl in Ok. apply andb_prop in Ok. destruct Ok as [Ok1 Ok2].
     destruct (stopped s) eqn:R.
@@ -812,27 +874,43 @@ Proof.
       rewrite citers_stopped by reflexivity. simpl. rewrite app_nil_r. exact N. }
     rewrite citers_cons. cbn [snd]. unfold commit_keys in *. rewrite out_keys_app, app_assoc.
     pose proof (cstep_commit_keys s it Ok1) as E. unfold commit_keys in E.
-    pose proof (cstep_stamp s it) as St.
+    pose proof (cstep_stamp s it) as St. pose proof (cstep_flags s it) as Fl.
     destruct (cstep s it) as [s1 o1]. cbn [fst snd] in *. rewrite E. clear E.
-    rewrite R, Pc in *. cbn [orb] in *. unfold stamp_of in St.
+    rewrite R, Pc in *. cbn [orb] in *. unfold stamp_of in St. unfold flags_of in Fl.
     assert (Sk : ckey s1 = snd (fst (stamp_ev (ctxn s, ckey s, begins s) (i_ev it)))) by (rewrite <- St; reflexivity).
     assert (Sb : begins s1 = snd (stamp_ev (ctxn s, ckey s, begins s) (i_ev it))) by (rewrite <- St; reflexivity).
-    clear St. cbn [map] in Co. unfold ev_commit_keys.
-    destruct (i_ev it) as [w' [t'|t'|op'| |]| w' [|] sl | | | | | | x | | |]; cbn [commits_ok stamp_ev fst snd] in *;
-      try discriminate Co;
-      try (rewrite app_nil_r; apply (IH s1 K b); auto; split; rewrite ?Sb, ?Sk; assumption).
+    assert (Ff : first_iter s1 = fst (flags_ev (first_iter s, saw_commit s) (i_ev it))) by (rewrite <- Fl; reflexivity).
+    assert (Fs : saw_commit s1 = snd (flags_ev (first_iter s, saw_commit s) (i_ev it))) by (rewrite <- Fl; reflexivity).
+    clear St Fl. cbn [map] in Co. unfold ev_commit_keys. unfold open_txn in *.
+    destruct (i_ev it) as [w' [t'|t'|op'| |]| w' [|] sl | | | | | | x | | |];
+      cbn [commits_ok stamp_ev flags_ev fst snd] in *;
+      try (rewrite app_nil_r; apply (IH s1 K b); auto; (split; [|split]); unfold open_txn; rewrite ?Sb, ?Sk, ?Ff, ?Fs; assumption).
     + (* BEGIN *)
-      rewrite app_nil_r. apply (IH s1 K false); auto. split.
-      * rewrite Sb. eapply bounded_weaken; [exact B|lia].
+      rewrite app_nil_r. apply (IH s1 K false); auto. split; [|split; [|discriminate]].
+      * rewrite Sb. eapply bounded_weaken; [exact B|apply N.le_add_r].
       * intros _. rewrite Sk, Sb. split; [apply bounded_fresh; exact B|].
-        exists t', (begins s). split; [reflexivity|lia].
+        exists t', (begins s). split; [reflexivity|rewrite N.add_1_r; apply N.lt_succ_diag_r].
     + (* COMMIT *)
       apply andb_prop in Co. destruct Co as [Hb Co]. apply negb_true_iff in Hb. subst b.
       destruct (J eq_refl) as (Nin & t & n & Ek & Ln).
       apply (IH s1 (K ++ [ckey s]) true); auto.
-      * split; [|discriminate]. rewrite Sb. intros k I. apply in_app_or in I.
-        destruct I as [I|[<-|[]]]; [apply B; exact I|eauto].
+      * split; [|split; [discriminate|]].
+        -- rewrite Sb. intros k I. apply in_app_or in I.
+           destruct I as [I|[<-|[]]]; [apply B; exact I|eauto].
+        -- intros _. unfold open_txn. rewrite Fs. apply andb_false_r.
       * apply NoDup_snoc; assumption.
+    + (* ErrorResponse *)
+      destruct (negb (first_iter s) && negb (saw_commit s)) eqn:Opn.
+      * destruct b; [pose proof (Op eq_refl) as Op'; congruence|].
+        destruct (J eq_refl) as (Nin & t & n & Ek & Ln).
+        apply (IH s1 (K ++ [ckey s]) true); auto.
+        -- split; [|split; [discriminate|]].
+           ++ rewrite Sb. intros k I. apply in_app_or in I.
+              destruct I as [I|[<-|[]]]; [apply B; exact I|eauto].
+           ++ intros _. unfold open_txn. rewrite Ff. reflexivity.
+        -- apply NoDup_snoc; assumption.
+      * rewrite app_nil_r. apply (IH s1 K true); auto.
+        split; [rewrite Sb; exact B|split; [discriminate|]]. intros _. unfold open_txn. rewrite Ff. reflexivity.
 Qed.
 
 Lemma crun_one_commit first its :
@@ -842,7 +920,9 @@ Proof.
   intros Ok Co. rewrite crun_snd. unfold commit_keys. rewrite out_keys_app.
   rewrite (out_keys_couts _ (snd (cstart first))), cstart_couts. simpl.
   apply (citers_commit_keys its _ [] true Ok Co); [|constructor].
-  split; [intros k []|discriminate].
+  split; [intros k []|split; [discriminate|]]. intros _.
+  pose proof (cstart_flags first) as F. unfold flags_of in F. unfold open_txn.
+  apply (f_equal fst) in F. simpl in F. rewrite F. reflexivity.
 Qed.
 
 (* ---- key scope, as a monitor over the output list ---- *)
@@ -1141,4 +1221,184 @@ Proof.
     + rewrite E, <- !app_assoc. reflexivity.
     + destruct (rapid s0 sl); intros I; repeat (destruct I as [I|I]; [discriminate I|]); exact I.
     + left. simpl. auto.
+Qed.
+
+(* ================================================================================== *)
+(* 7. C02 (client part): the synthetic COMMIT of recoverFromErrorResponse               *)
+(* ================================================================================== *)
+Lemma cstep_recovery_couts s it x :
+  stopped s = false -> i_pclosed it = false -> i_ev it = EErrorResponse x ->
+  couts (snd (cstep s it)) =
+  if open_txn s
+  then [COut "COMMIT" (ctxn s) (ckey s) (if (highest s =? 0)%N then hp_val s (i_prog it) else highest s)]
+  else [].
+Proof. intros R Pc Ev. rewrite cstep_couts, R, Pc, Ev. reflexivity. Qed.
+
+(* while a transaction is open, the current key is the key of the last forwarded BEGIN *)
+Definition open_key_inv (s : cstate) (K : list string) : Prop :=
+  open_txn s = true -> exists K0, K = K0 ++ [ckey s].
+
+Lemma cstep_open_key s it K : ev_ok (i_ev it) = true -> open_key_inv s K ->
+  open_key_inv (fst (cstep s it)) (K ++ begin_keys (snd (cstep s it))).
+Proof.
+  intros Ok P. rewrite (cstep_begin_keys s it Ok).
+  pose proof (cstep_stamp s it) as St. pose proof (cstep_flags s it) as Fl.
+  destruct (cstep s it) as [s1 o1]. cbn [fst snd] in *.
+  unfold open_key_inv, open_txn, stamp_of, flags_of in *.
+  pose proof (f_equal (fun p => snd (fst p)) St) as Sk. pose proof (f_equal snd St) as Sb.
+  pose proof (f_equal fst Fl) as Ff. pose proof (f_equal snd Fl) as Fs. cbn beta in Sk. cbn [fst snd] in Sk, Sb, Ff, Fs.
+  clear St Fl.
+  destruct (stopped s || i_pclosed it); cbn [fst snd] in *.
+  - rewrite app_nil_r, Sk, Ff, Fs. exact P.
+  - unfold ev_begin_keys.
+    destruct (i_ev it) as [w' [t'|t'|op'| |]| w' [|] sl | | | | | | x | | |];
+      cbn [stamp_ev flags_ev fst snd] in *;
+      try (rewrite app_nil_r, Sk, Ff, Fs; exact P);
+      try (rewrite Ff, Fs; simpl; rewrite ?andb_false_r; discriminate).
+    rewrite Sk. destruct (negb (saw_commit s) && negb (first_iter s)).
+    + rewrite Ff. simpl. discriminate.
+    + intros _. exists K. reflexivity.
+Qed.
+
+Lemma citers_open_key its : forall s K, script_ok its = true -> open_key_inv s K ->
+  open_key_inv (fst (citers s its)) (K ++ begin_keys (snd (citers s its))).
+Proof.
+  induction its as [|it its IH]; intros s K Ok P.
+  - simpl. rewrite app_nil_r. exact P.
+  - simpl in Ok. apply andb_prop in Ok. destruct Ok as [Ok1 Ok2].
+    rewrite citers_cons. cbn [fst snd]. unfold begin_keys. rewrite out_keys_app, app_assoc.
+    apply IH; [exact Ok2|]. apply cstep_open_key; assumption.
+Qed.
+
+Lemma crun_open_key first its : script_ok its = true ->
+  open_txn (fst (crun first its)) = true ->
+  exists K0, begin_keys (snd (crun first its)) = K0 ++ [ckey (fst (crun first its))].
+Proof.
+  intros Ok. rewrite crun_fst, crun_snd. unfold begin_keys. rewrite out_keys_app.
+  rewrite (out_keys_couts _ (snd (cstart first))), cstart_couts.
+  apply (citers_open_key its (fst (cstart first)) [] Ok).
+  intros O. pose proof (cstart_flags first) as F. apply (f_equal fst) in F. unfold flags_of in F. simpl in F.
+  unfold open_txn in O. rewrite F in O. discriminate.
+Qed.
+
+(* while a transaction is open, no COMMIT carrying its key has been forwarded yet *)
+Definition bounded0 (b : N) (K : list string) : Prop :=
+  forall k, In k K -> k = ""%string \/ exists t n, k = key_of t n /\ (n < b)%N.
+
+Lemma key_of_nonempty t n : key_of t n <> ""%string.
+Proof. unfold key_of. destruct t; simpl; discriminate. Qed.
+
+Definition first_commit_inv (s : cstate) (C : list string) : Prop :=
+  bounded0 (begins s) C /\
+  (ckey s = ""%string \/ exists t n, ckey s = key_of t n /\ (n < begins s)%N) /\
+  (open_txn s = true -> ~ In (ckey s) C).
+
+Lemma bounded0_snoc b C k : bounded0 b C ->
+  (k = ""%string \/ exists t n, k = key_of t n /\ (n < b)%N) -> bounded0 b (C ++ [k]).
+Proof. intros B H k' I. apply in_app_or in I. destruct I as [I|[<-|[]]]; auto. Qed.
+
+Lemma cstep_first_commit s it C : ev_ok (i_ev it) = true -> first_commit_inv s C ->
+  first_commit_inv (fst (cstep s it)) (C ++ commit_keys (snd (cstep s it))).
+Proof.
+  intros Ok (B & Kf & P). rewrite (cstep_commit_keys s it Ok).
+  pose proof (cstep_stamp s it) as St. pose proof (cstep_flags s it) as Fl.
+  destruct (cstep s it) as [s1 o1]. cbn [fst snd] in *.
+  unfold first_commit_inv, open_txn, stamp_of, flags_of in *.
+  pose proof (f_equal (fun p => snd (fst p)) St) as Sk. pose proof (f_equal snd St) as Sb.
+  pose proof (f_equal fst Fl) as Ff. pose proof (f_equal snd Fl) as Fs. cbn beta in Sk. cbn [fst snd] in Sk, Sb, Ff, Fs.
+  clear St Fl.
+  destruct (stopped s || i_pclosed it); cbn [fst snd] in *.
+  - rewrite app_nil_r, Sk, Sb, Ff, Fs. auto.
+  - unfold ev_commit_keys.
+    destruct (i_ev it) as [w' [t'|t'|op'| |]| w' [|] sl | | | | | | x | | |];
+      cbn [stamp_ev flags_ev fst snd] in *;
+      try (rewrite app_nil_r, Sk, Sb, Ff, Fs; auto; fail).
+    + (* BEGIN *)
+      rewrite app_nil_r, Sk, Sb. split; [|split].
+      * intros k I. destruct (B k I) as [E|(t & n & E & L)]; [now left|right].
+        exists t, n. split; [exact E|lia].
+      * right. exists t', (begins s). split; [reflexivity|lia].
+      * intros _ I. destruct (B _ I) as [E|(t & n & E & L)].
+        -- exact (key_of_nonempty _ _ E).
+        -- apply key_of_injective in E. destruct E as [_ E]. lia.
+    + (* COMMIT *)
+      rewrite Sk, Sb, Fs. split; [apply bounded0_snoc; assumption|split; [exact Kf|]].
+      rewrite andb_false_r. discriminate.
+    + (* ErrorResponse *)
+      rewrite Sk, Sb, Ff. split; [|split; [exact Kf|simpl; discriminate]].
+      destruct (negb (first_iter s) && negb (saw_commit s)); [apply bounded0_snoc; assumption|].
+      rewrite app_nil_r. exact B.
+Qed.
+
+Lemma citers_first_commit its : forall s C, script_ok its = true -> first_commit_inv s C ->
+  first_commit_inv (fst (citers s its)) (C ++ commit_keys (snd (citers s its))).
+Proof.
+  induction its as [|it its IH]; intros s C Ok P.
+  - simpl. rewrite app_nil_r. exact P.
+  - simpl in Ok. apply andb_prop in Ok. destruct Ok as [Ok1 Ok2].
+    rewrite citers_cons. cbn [fst snd]. unfold commit_keys. rewrite out_keys_app, app_assoc.
+    apply IH; [exact Ok2|]. apply cstep_first_commit; assumption.
+Qed.
+
+Lemma crun_first_commit first its : script_ok its = true ->
+  open_txn (fst (crun first its)) = true ->
+  ~ In (ckey (fst (crun first its))) (commit_keys (snd (crun first its))).
+Proof.
+  intros Ok. rewrite crun_fst, crun_snd. unfold commit_keys. rewrite out_keys_app.
+  rewrite (out_keys_couts _ (snd (cstart first))), cstart_couts.
+  apply (citers_first_commit its (fst (cstart first)) [] Ok).
+  pose proof (cstart_stamp first) as St. unfold stamp_of in St.
+  split; [intros k []|split].
+  - left. apply (f_equal (fun p => snd (fst p))) in St. exact St.
+  - intros _ [].
+Qed.
+
+(* overall never decreases and starts at the session start position *)
+Lemma cstart_overall_eq first : overall (fst (cstart first)) = start_pos first.
+Proof. unfold cstart, get_start, fatal, start_pos. destruct first; reflexivity. Qed.
+
+Lemma crun_overall_ge first its : (start_pos first <= overall (fst (crun first its)))%N.
+Proof.
+  rewrite crun_fst, <- cstart_overall_eq.
+  destruct (citers (fst (cstart first)) its) as [s1 o1] eqn:H.
+  destruct (citers_acks _ _ _ _ H) as [L _]. exact L.
+Qed.
+
+(* run level: a recovery step in iteration k of a running client *)
+Lemma crun_synthetic_commit first its1 it x :
+  script_ok its1 = true ->
+  stopped (fst (crun first its1)) = false -> i_pclosed it = false -> i_ev it = EErrorResponse x ->
+  let s := fst (crun first its1) in
+  let w := if (highest s =? 0)%N then hp_val s (i_prog it) else highest s in
+  couts (snd (cstep s it)) = (if open_txn s then [COut "COMMIT" (ctxn s) (ckey s) w] else []) /\
+  open_txn s = (let fl := flags_spec (map i_ev its1) in negb (fst fl) && negb (snd fl)) /\
+  (open_txn s = true ->
+     (exists K0, begin_keys (snd (crun first its1)) = K0 ++ [ckey s]) /\
+     ~ In (ckey s) (commit_keys (snd (crun first its1)))) /\
+  (start_pos first <= overall s <= hp_val s (i_prog it))%N.
+Proof.
+  intros Ok R Pc Ev s w. split; [|split; [|split]].
+  - apply (cstep_recovery_couts s it x R Pc Ev).
+  - unfold open_txn. pose proof (crun_flags first its1 R) as F. fold s in F. unfold flags_of in F.
+    rewrite <- F. reflexivity.
+  - intros O. split; [apply crun_open_key; assumption|apply crun_first_commit; assumption].
+  - split; [apply crun_overall_ge|apply hp_val_ge].
+Qed.
+
+Lemma crun_synthetic_commit_nonzero first its1 it x s' o op t k w :
+  start_pos first <> 0%N ->
+  cstep (fst (crun first its1)) it = (s', o) -> i_ev it = EErrorResponse x ->
+  In (COut op t k w) o -> w <> 0%N.
+Proof.
+  intros Sp H Ev I. assert (I2 : In (COut op t k w) (couts o)) by (apply in_couts; auto).
+  pose proof (cstep_couts (fst (crun first its1)) it) as E. rewrite H in E. simpl in E. rewrite E in I2. clear E.
+  destruct (stopped (fst (crun first its1)) || i_pclosed it); [contradiction|].
+  rewrite Ev in I2. unfold ev_couts in I2.
+  match type of I2 with context [if ?c then [_] else _] => destruct c end; [|contradiction].
+  destruct I2 as [I2|[]]. inversion I2; subst. clear I2.
+  pose proof (crun_overall_ge first its1) as G.
+  pose proof (hp_val_ge (fst (crun first its1)) (i_prog it)) as G2.
+  change (overall (head_state (fst (crun first its1)) it)) with (hp_val (fst (crun first its1)) (i_prog it)).
+  change (highest (head_state (fst (crun first its1)) it)) with (highest (fst (crun first its1))).
+  destruct (N.eqb_spec (highest (fst (crun first its1))) 0); lia.
 Qed.
